@@ -8,6 +8,7 @@ import Driver.ParamCmd
 import Driver.EstimCmd
 import Driver.AsmCmd
 import Driver.HMeshCmd
+import Driver.InitPotCmd
 /- stbem-driver: one protocol line in, one canonical line out. -/
 open Driver
 
@@ -16,6 +17,7 @@ structure St where
   sl : SLState := {}
   qt : QtSt := {}
   hmesh : Option Stbem.HalfEdge.HMesh := none
+  ip : IpSt := {}
 
 def dispatch (st : St) (line : String) : St × String :=
   let args := (line.trimAscii.toString.splitOn " ").filter (· ≠ "")
@@ -31,6 +33,7 @@ def dispatch (st : St) (line : String) : St × String :=
   | "asm" :: _ => (st, asmCmd args)
   | "mesh" :: _ => let r := meshCmd st.mesh args; ({ st with mesh := r.1 }, r.2)
   | "hm" :: _ => let r := hmCmd st.hmesh args; ({ st with hmesh := r.1 }, r.2)
+  | "ip" :: _ => let r := ipCmd st.ip args; ({ st with ip := r.1 }, r.2)
   | _ => (st, "bad-op")
 
 partial def loop (h : IO.FS.Stream) (out : IO.FS.Stream) (st : St) : IO Unit := do
